@@ -140,3 +140,56 @@ Proof.
   rewrite S0, C0 in *. cbn [rev map app] in H1. split; [exact H1|].
   rewrite (destroy_size x hn cur closed F), H2. reflexivity.
 Qed.
+
+(* ---------- C12: a call returns a non-zero count exactly when it wrote a block ---------- *)
+Lemma wbe_ret_zero x b hn cur closed : framed x hn cur closed ->
+  (item_count b <> 0 -> typed_blk b /\ typed_pre (hdr_pre x (hn_next x hn))) ->
+  (snd (write_block_ext x b) = 0 <-> item_count b = 0).
+Proof.
+  intros F Hb. unfold write_block_ext. destruct (item_count b =? 0) eqn:E; cbn [snd].
+  - apply N.eqb_eq in E. tauto.
+  - apply N.eqb_neq in E. destruct (Hb E) as (Tb & Tp). destruct (block_spec b Tb) as [Bb Rb].
+    set (ops := (if x_written x =? 0 then header_ops x else []) ++ write_val Schema.Block (blk_val b)).
+    assert (Ro : Forall in_range ops).
+    { unfold ops. apply Forall_app. split; auto. destruct (x_written x =? 0) eqn:W; auto.
+      unfold hn_next in Tp. rewrite W in Tp. rewrite hdr_pre_all in Tp. apply header_spec. exact Tp. }
+    pose proof (enc_run_spec (x_enc x) ops (fr_encinv _ _ _ _ F) Ro) as (_ & Hr & _).
+    destruct (enc_run (x_enc x) ops) as [e' r]. cbn [fst snd] in *. rewrite Hr. unfold ops. rewrite bytes_of_app, Bb, app_length.
+    pose proof (ser_nonempty (tree_of Schema.Block (blk_val b))). unfold blk_bytes. split; [lia|tauto].
+Qed.
+Lemma wb_ret_zero x hn cur closed : framed x hn cur closed -> typed_x (fst (write_block x)) ->
+  (snd (write_block x) = 0 <-> item_count (x_blk x) = 0).
+Proof.
+  intros F T. pose proof (wbe_ret_zero x (x_blk x) hn cur closed F (typed_write_block x hn cur closed F T)) as H.
+  unfold write_block. destruct (write_block_ext x (x_blk x)) as [x1 r]. destruct (blk_set_bp _ _ _). exact H.
+Qed.
+(* buffer_qr / buffer_aec / buffer_mm and write_block: non-zero return <-> the list of written blocks grew *)
+Theorem ret_nonzero_iff_written x o hn cur closed : framed x hn cur closed -> adm1 x hn o -> typed_x (fst (xstep x o)) ->
+  match o with
+  | XQr _ _ | XAec _ _ | XMm _ _ | XWb => snd (xstep x o) <> 0 <-> x_done (fst (xstep x o)) <> x_done x
+  | _ => True
+  end.
+Proof.
+  intros F A T.
+  assert (Hwb : forall y hn cur closed, framed y hn cur closed -> typed_x (fst (write_block y)) ->
+                (snd (write_block y) <> 0 <-> x_done (fst (write_block y)) <> x_done y)).
+  { intros y h c cl Fy Ty. rewrite (wb_ret_zero y h c cl Fy Ty). destruct (write_block_done_pre y) as [Hd _]. rewrite Hd.
+    destruct (item_count (x_blk y) =? 0) eqn:E.
+    - apply N.eqb_eq in E. tauto.
+    - apply N.eqb_neq in E. split; [|tauto]. intros _ Heq. rewrite <- (app_nil_r (x_done y)) in Heq at 2. apply app_inv_head in Heq. discriminate. }
+  assert (Hbuf : forall add, (forall b, b_bpi (fst (add b)) = b_bpi b /\ b_bp (fst (add b)) = b_bp b) -> typed_x (fst (buffer add x)) ->
+                 (snd (buffer add x) <> 0 <-> x_done (fst (buffer add x)) <> x_done x)).
+  { intros add Hadd Tb. unfold buffer in *. destruct (add (x_blk x)) as [b' f] eqn:E.
+    destruct (Hadd (x_blk x)) as [A1 A2]. rewrite E in A1, A2. cbn [fst] in *.
+    assert (Hb : blk_params_ok (x_params x) b').
+    { destruct (fr_blk _ _ _ _ F) as [H1 H2]. unfold blk_params_ok. rewrite A1, A2. auto. }
+    assert (Hn : cur <> [] -> b_bpi b' < hn) by (intros Hc; rewrite A1; apply (fr_hn _ _ _ _ F Hc)).
+    pose proof (with_blk_framed x b' hn cur closed F Hb Hn) as F1. destruct f.
+    - apply (Hwb (with_blk x b') hn cur closed F1 Tb).
+    - cbn [fst snd with_blk x_done]. tauto. }
+  destruct o as [gr st|ga st|gm st| |e|bp|i]; cbn [xstep] in *; auto.
+  - apply (Hbuf (add_qr gr st) (add_qr_bp gr st) T).
+  - apply (Hbuf (add_aec ga st) (add_aec_bp ga st) T).
+  - apply (Hbuf (add_mm gm st) (add_mm_bp gm st) T).
+  - apply (Hwb x hn cur closed F T).
+Qed.
